@@ -140,7 +140,9 @@ func (r *runner) Step(t []string) string {
 			return "bad-op"
 		}
 		before := len(s.actors)
-		s.sys.Terminate(s.target(s.sys.Context(), fmt.Sprint(a)), t[2] == "g")
+		kt := s.target(s.sys.Context(), fmt.Sprint(a))
+		s.events = append(s.events, "killreq:"+s.name(kt))
+		s.sys.Terminate(kt, t[2] == "g")
 		s.sc.WaitQuiet()
 		return r.global(before)
 	case "shutdown":
@@ -149,6 +151,7 @@ func (r *runner) Step(t []string) string {
 		}
 		before := len(s.actors)
 		// the request part of Shutdown (Shutdown itself blocks until the root has terminated)
+		s.events = append(s.events, "killreq:0")
 		s.sys.Terminate(s.actors[0].ref, t[1] == "g")
 		s.sc.WaitQuiet()
 		return r.global(before)
